@@ -55,6 +55,13 @@ def setup(root):
 # generation
 
 def _gen_sched(rng, nops):
+    sc = _gen_sched0(rng, nops)
+    if rng.random() < 0.2:
+        sc['raw'] = True        # threads started behind the threading module's back (_thread, C extensions)
+    return sc
+
+
+def _gen_sched0(rng, nops):
     horizon = rng.choice([60, 150, 400]) * max(1, nops // 2)
     r = rng.random()
     seed = rng.getrandbits(32)
